@@ -110,7 +110,9 @@ func checkLegacy(doc *JV, ops []Op) {
 		if ref.Err == eCopyLimit {
 			vx.Assert(err != nil && legacyIsCopyErr(err), "C12/legacy-limit-error-when-total-exceeds")
 			vx.Reach("legacy/copy-limit-hit")
-		} else if err != nil {
+		} else if err != nil && demanded {
+			// only where the legacy package must stop at this operation: on an error class it does not raise (copy
+			// from an absent member copies a null) it goes on, and a later copy may legitimately exceed the limit
 			vx.Assert(!legacyIsCopyErr(err), "C12/legacy-limit-error-only-from-limit")
 		}
 		return
